@@ -195,6 +195,10 @@ def s_add(a, b):
         l, r = (a, b) if isinstance(a, LogV) else (b, a)
         if is_num(r) and num_val(r) == 0:
             return l
+        if is_num(r):
+            q = _as_log_const(num_val(r))
+            if q is not None:
+                return LogV(l.P * RV(q))
         if is_app_of(r, "Log", 1):
             return LogV(l.P * r.arg(0))
         return LogV(l.P * s_exp(r))
@@ -206,6 +210,19 @@ def s_add(a, b):
     if is_num(b) and num_val(b) == 0:
         return a
     return a + b
+
+
+def _as_log_const(v):
+    """log-domain mode only: a float literal that is (to float32 precision) +-log(n) for a small integer n is
+    read as exactly that logarithm (the code computed jnp.log(n) at trace time); returns the rational n or 1/n"""
+    f = float(v)
+    for n in range(1, 65):
+        ln = math.log(n)
+        if abs(f - ln) <= 2e-6 * max(1.0, ln):
+            return Fraction(n)
+        if abs(f + ln) <= 2e-6 * max(1.0, ln):
+            return Fraction(1, n)
+    return None
 
 
 def s_neg(a):
@@ -305,14 +322,29 @@ def s_ite(c, a, b):
     if z3.is_false(c):
         return b
     if isinstance(a, LogV) or isinstance(b, LogV):
-        if isinstance(a, LogV) and isinstance(b, LogV):
-            return LogV(z3.If(c, a.P, b.P))
-        return z3.If(c, unlog(a), unlog(b))
+        a, b = to_logv(a), to_logv(b)
+        return LogV(z3.If(c, a.P, b.P))
     if a.eq(b):
         return a
     if a.sort() != b.sort():
         a, b = s_real(a), s_real(b)
     return z3.If(c, a, b)
+
+
+def to_logv(t):
+    """view a real term as a log-domain value"""
+    if isinstance(t, LogV):
+        return t
+    if is_num(t):
+        v = num_val(t)
+        if v == 0:
+            return LogV(RV(1))
+        q = _as_log_const(v)
+        if q is not None:
+            return LogV(RV(q))
+    if is_app_of(t, "Log", 1):
+        return LogV(t.arg(0))
+    return LogV(s_exp(t))
 
 
 def s_exp(a):
@@ -364,7 +396,17 @@ s_lt, s_le, s_gt, s_ge = map(_fold_cmp, (_op.lt, _op.le, _op.gt, _op.ge))
 s_eq, s_ne = _fold_cmp(_op.eq), _fold_cmp(_op.ne)
 
 
+def _is_neginf(a):
+    return isinstance(a, LogV) and is_num(a.P) and num_val(a.P) == 0
+
+
 def s_max(a, b):
+    if _is_neginf(a):
+        return b
+    if _is_neginf(b):
+        return a
+    if isinstance(a, LogV) != isinstance(b, LogV):
+        a, b = to_logv(a), to_logv(b)
     if isinstance(a, LogV) and isinstance(b, LogV):
         if is_num(a.P) and num_val(a.P) == 0:
             return b
@@ -382,6 +424,12 @@ def s_max(a, b):
 
 
 def s_min(a, b):
+    if _is_neginf(a):
+        return a
+    if _is_neginf(b):
+        return b
+    if isinstance(a, LogV) != isinstance(b, LogV):
+        a, b = to_logv(a), to_logv(b)
     if isinstance(a, LogV) and isinstance(b, LogV):
         return LogV(z3.If(a.P <= b.P, a.P, b.P))
     a, b = unlog(a), unlog(b)
